@@ -22,7 +22,7 @@ ASSUMPTIONS = ['i64 entries stay below 100 in absolute value (map / rows_mut use
                'oracle leniency (reported): swap_rows with an out-of-range row does NOT fail when a == b or width == 0 (no cell is '
                'addressed) - the oracle accepts "no failure, array unchanged" there; from_flat onto a zero-size shape with empty '
                'data is rejected with InvalidShape - the oracle accepts rejection or the empty grid',
-               'From<&[[T;N];M]> is exercised for shapes up to 4x4 (const generics); element conversion failures of TryFrom are not exercised']
+               'TryFrom<&Vec<Vec<T>>> (borrowed, op fb) has its own body in the crate with the same row check; the model has one body (OFromNested) for both', 'From<&[[T;N];M]> is exercised for shapes up to 4x4 (const generics); element conversion failures of TryFrom are not exercised']
 
 
 # ----------------------------------------------------------------- the plain grid (oracle)
@@ -93,7 +93,7 @@ def step(st, op):
     """the plain grid under one operation -> list of admissible (output, new state)"""
     h, w, cells = st
     k = op[0]
-    if k == 'fn':
+    if k in ('fn', 'fb'):
         rows = op[1]
         if not rows:
             return [('ok', (0, 0, ()))]
@@ -172,8 +172,8 @@ def step_texts(st, op):
 # ----------------------------------------------------------------- wire form
 def op_tokens(op):
     k = op[0]
-    if k == 'fn':
-        return 'fn %d %s' % (len(op[1]), ' '.join(('%d %s' % (len(r), ' '.join(map(str, r)))).strip() for r in op[1]))
+    if k in ('fn', 'fb'):
+        return k + ' %d %s' % (len(op[1]), ' '.join(('%d %s' % (len(r), ' '.join(map(str, r)))).strip() for r in op[1]))
     if k == 'ff':
         return ('ff %d %s' % (len(op[1]), ' '.join(map(str, op[1])))).strip() + ' %d %d %d' % (op[2], op[3], op[4])
     if k == 'sr':
@@ -210,9 +210,9 @@ def parse_line(line):
     ops = []
     for _ in range(k):
         c = nxt()
-        if c == 'fn':
+        if c in ('fn', 'fb'):
             n = int(nxt())
-            ops.append(('fn', tuple(ivec() for _ in range(n))))
+            ops.append((c, tuple(ivec() for _ in range(n))))
         elif c == 'ff':
             data = ivec()
             ops.append(('ff', data, int(nxt()), int(nxt()), int(nxt())))
@@ -241,7 +241,8 @@ START_VALS = [5, -3, 12, 0, -10, 7, 1, -1, 9]
 CORE = [('rs', 1), ('rs', 2), ('tr',), ('tm',), ('sw', 0, 1), ('s1', 0, 1, -42), ('s2', 1, 0, 33),
         ('sr', 0, (8, -8)), ('rm', 1, 1), ('fn', ((1, 2), (3, 4), (5, 6))), ('ff', (1, 2, 3), -6, 2, 2), ('fu', 4, 0, 2)]
 MID = CORE + [('rs', 0), ('rs', 3), ('sw', 1, 2), ('sw', 2, 2), ('mp', -1, 2), ('id', 2), ('cl',), ('tf',), ('fa', 2, 2, (-4, 40, 4, -40)),
-              ('fn', ((1, 2), (3,))), ('ff', (1, 2, 3, 4, 5), 0, 2, 2), ('sr', 1, (7, 70, -7)), ('s1', 2, 2, 11), ('fu', 5, 3, 0)]
+              ('fn', ((1, 2), (3,))), ('fn', ((1, 2), (3,), (4, 5, 6))), ('fb', ((7, 8), (9, 10, 11), (12,))),
+              ('ff', (1, 2, 3, 4, 5), 0, 2, 2), ('sr', 1, (7, 70, -7)), ('s1', 2, 2, 11), ('fu', 5, 3, 0)]
 
 
 def wide():
@@ -252,8 +253,12 @@ def wide():
     ops += [('sr', r, tuple([6, -15, 0][:n])) for r in range(4) for n in range(4)]
     ops += [('fu', 2, h, w) for h in range(4) for w in range(4)]
     ops += [('id', n) for n in range(4)]
-    ops += [('fn', ()), ('fn', ((),)), ('fn', ((), ())), ('fn', ((1, 2, 3),)), ('fn', ((1,), (2,), (3,))),
-            ('fn', ((1, 2), (3,))), ('fn', ((), (1,))), ('fn', ((10, -20), (3, 4)))]
+    # ragged nested vectors: every way the rows can disagree, incl. totals that happen to equal rows*len(first)
+    ragged = [((1, 2), (3,), (4, 5, 6)), ((1, 2), (3, 4, 5), (6,)), ((1,), (), (2, 3)), ((1, 2), (), (3, 4, 5, 6)),
+              ((1, 2, 3), (4,), (5, 6, 7, 8, 9)), ((1, 2), (3, 4, 5)), ((1, 2), (3,)), ((1, 2), (3, 4), (5,)),
+              ((1, 2), (3, 4), (5, 6, 7)), ((1, 2), ()), ((), (1,)), ((), (), (1, 2)), ((1,), (2,), ()), ((1,), (2, 3), ())]
+    rect = [(), ((),), ((), ()), ((1, 2, 3),), ((1,), (2,), (3,)), ((10, -20), (3, 4))]
+    ops += [(k, r) for k in ('fn', 'fb') for r in ragged + rect]
     ops += [('fa', 0, 0, ()), ('fa', 0, 2, ()), ('fa', 3, 0, ()), ('fa', 1, 3, (1, -2, 3)), ('fa', 3, 1, (1, -2, 3)),
             ('fa', 2, 3, (1, 2, 3, 4, 5, 6))]
     ops += [('ff', (), 0, 0, 0), ('ff', (), 1, 0, 3), ('ff', (), 9, 2, 2), ('ff', (1,), 0, 0, 0), ('ff', (1, 2, 3, 4), 0, 2, 2),
@@ -280,7 +285,7 @@ def seqs(alphabets):
 
 def random_op(rng, st, valid):
     h, w, _ = st
-    kind = rng.choice(['rs', 'tr', 'tm', 'sw', 'sw', 's1', 's2', 's1', 's2', 'sr', 'sr', 'rm', 'mp', 'fn', 'fa', 'ff', 'fu', 'id', 'cl', 'tf'])
+    kind = rng.choice(['rs', 'tr', 'tm', 'sw', 'sw', 's1', 's2', 's1', 's2', 'sr', 'sr', 'rm', 'mp', 'fn', 'fn', 'fb', 'fb', 'fa', 'ff', 'fu', 'id', 'cl', 'tf'])
     v = rng.randint(-99, 99)
     if kind == 'rs':
         n = h * w
@@ -307,13 +312,27 @@ def random_op(rng, st, valid):
         return ('rm', rng.randint(-3, 3), rng.randint(-9, 9))
     if kind == 'mp':
         return ('mp', rng.randint(-3, 3), rng.randint(-9, 9))
-    if kind == 'fn':
+    if kind in ('fn', 'fb'):
         nh, nw = rng.randint(0, 6), rng.randint(0, 6)
         rows = [[rng.randint(-99, 99) for _ in range(nw)] for _ in range(nh)]
         if not valid and nh >= 2:
-            k = rng.randrange(1, nh)
-            rows[k] = rows[k][:-1] if nw and rng.random() < 0.5 else rows[k] + [0]
-        return ('fn', tuple(tuple(r) for r in rows))
+            k = rng.randrange(1, nh)                       # a later row; the first row fixes the width
+            how = rng.choice(['move', 'move', 'longer', 'shorter', 'empty', 'empty-first'])
+            if how == 'move' and nh >= 3 and nw >= 1:
+                # same total as a rectangle: one later row gives elements to another later row
+                j = rng.choice([x for x in range(1, nh) if x != k])
+                n = rng.randint(1, nw)
+                rows[j] = rows[j] + rows[k][:n]
+                rows[k] = rows[k][n:]
+            elif how == 'shorter' and nw >= 1:
+                rows[k] = rows[k][:-1]
+            elif how == 'empty' and nw >= 1:
+                rows[k] = []
+            elif how == 'empty-first' and nw >= 1:
+                rows[0] = []
+            else:
+                rows[k] = rows[k] + [rng.randint(-99, 99)] * rng.randint(1, 2)
+        return (kind, tuple(tuple(r) for r in rows))
     if kind == 'fa':
         nh, nw = rng.randint(0, 4), rng.randint(0, 4)
         return ('fa', nh, nw, tuple(rng.randint(-99, 99) for _ in range(nh * nw)))
@@ -394,3 +413,164 @@ def describe(case):
     start, ops = parse_line(case.line)
     return {'start_shape': [start[0], start[1]], 'start_rows': [list(r) for r in start[2]],
             'ops': [op_tokens(o) for o in ops][:12], 'n_ops': len(ops)}
+
+
+# ---- extraction cross-check: the same cases evaluated inside Coq by vm_compute
+# The driver ocaml/c12.ml folds c12_step over the operations and prints, for the start state and after every step,
+# a fixed battery of c12_observe queries.  The Coq term below performs the same fold and the same battery on
+# step_c / observe_c (= what P12.v extracts) and encodes every answer; encode_result re-reads the printed line.
+from tools import xenc
+COQ_IMPORTS = 'Base.XEnc Model.Arr2D'
+XCHECK_N = 150
+
+# er: the driver prints 'P' for Err and for Panic alike -> [9]
+_X_PRELUDE = '''(
+  let er := fun (A : Type) (f : A -> list Z) (r : res A) => match r with Ok a => 0 :: f a | _ => [9] end in
+  let ea := fun (x : answer) => match x with
+    | AShape h w => [Z.of_nat h; Z.of_nat w]
+    | ANat n => [Z.of_nat n]
+    | ABool b => [if b then 1 else 0]
+    | AElem r => er _ enc_Z r
+    | ARows r => er _ enc_Zmat r
+    | AOpt r => er _ (enc_opt enc_Z) r
+    | AEq r => er _ enc_bool r
+    | AText r => er _ enc_str r end in
+  let bl := fix bl (l : list Z) : list Z := match l with [] => [] | [x] => [Z.add x 1] | x :: r => x :: bl r end in
+  let blr := fix blr (l : list (list Z)) : list (list Z) := match l with [] => [] | [r] => [bl r] | r :: rs => r :: blr rs end in
+  let obs := fun (a : arr Z) =>
+    let h := match observe_c a QShape with AShape h _ => h | _ => 0%nat end in
+    let w := match observe_c a QShape with AShape _ w => w | _ => 0%nat end in
+    let rws := match observe_c a QRows with ARows (Ok rs) => rs | _ => [] end in
+    let total := fold_left (fun s r => (s + length r)%nat) rws 0%nat in
+    let c2 := if (0 <? total)%nat then blr rws else rws ++ [[]] in
+    let c4 := match rws with [] => [[0]] | r :: rs => (r ++ [0]) :: rs end in
+    ea (observe_c a QShape) ++ ea (observe_c a QSize) ++ ea (observe_c a QIsEmpty)
+    ++ flat_map (fun r => flat_map (fun c => ea (observe_c a (QGet1 r c))) (seq 0 (S w))) (seq 0 (S h))
+    ++ flat_map (fun r => flat_map (fun c => ea (observe_c a (QGet2 r c))) (seq 0 (S w))) (seq 0 (S h))
+    ++ ea (observe_c a QRows) ++ ea (observe_c a QIntoIter) ++ ea (observe_c a QMax) ++ ea (observe_c a QMin)
+    ++ flat_map (fun c => ea (observe_c a (QEqNested c))) [rws; c2; rws ++ [[]]; c4]
+    ++ ea (observe_c a QDisplay) in
+  let run := fix run (a : arr Z) (ops : list op) : list Z :=
+    match ops with
+    | [] => []
+    | o :: r => let (a', out) := step_c a o in enc_res enc_unit out ++ obs a' ++ run a' r
+    end in
+  fun (a : arr Z) (ops : list op) => obs a ++ run a ops)'''
+
+
+def _x_op(o):
+    k = o[0]
+    nat = xenc.cq_nat
+    if k == 'fn':
+        return '(OFromNested %s)' % xenc.cq_Zmat(o[1])
+    if k == 'fa':
+        return '(OFromArray %s %s (fun r c => nth (r * %d + c)%%nat %s 0))' % (nat(o[1]), nat(o[2]), o[2], xenc.cq_Zs(o[3]))
+    if k == 'ff':
+        return '(OFromFlat %s %s %s %s)' % (xenc.cq_Zs(o[1]), xenc.cq_Z(o[2]), nat(o[3]), nat(o[4]))
+    if k == 'fu':
+        return '(OFull %s %s %s)' % (xenc.cq_Z(o[1]), nat(o[2]), nat(o[3]))
+    if k == 'id':
+        return '(OIdentity %s)' % nat(o[1])
+    if k == 'rs':
+        return '(OReshape %s)' % nat(o[1])
+    if k == 'sw':
+        return '(OSwapRows %s %s)' % (nat(o[1]), nat(o[2]))
+    if k in ('s1', 's2'):
+        return '(%s %s %s %s)' % ('OSet1' if k == 's1' else 'OSet2', nat(o[1]), nat(o[2]), xenc.cq_Z(o[3]))
+    if k == 'sr':
+        return '(OSetRow %s %s)' % (nat(o[1]), xenc.cq_Zs(o[2]))
+    if k == 'rm':
+        return '(ORowsMutMap (rows_fn %s %s))' % (xenc.cq_Z(o[1]), xenc.cq_Z(o[2]))
+    if k == 'mp':
+        return '(OMap (map_fn %s %s))' % (xenc.cq_Z(o[1]), xenc.cq_Z(o[2]))
+    return {'tr': 'OTranspose', 'tm': 'OTransposeMut', 'cl': 'OClone', 'tf': 'OTryFromRef'}.get(k)
+
+
+def _x_nats(o):
+    k = o[0]
+    return {'fa': o[1:3], 'ff': o[3:5], 'fu': o[2:4], 'id': o[1:2], 'rs': o[1:2], 'sw': o[1:3], 's1': o[1:3], 's2': o[1:3],
+            'sr': o[1:2]}.get(k, ())
+
+
+def coq_term(case):
+    if not xenc.keep(case, 4000 if case.cls != 'random-40' else 25):
+        return None
+    (h, w, cells), ops = parse_line(case.line)
+    terms = [_x_op(o) for o in ops]
+    if any(t is None for t in terms) or any(not (0 <= n <= 5000) for o in ops for n in _x_nats(o)):
+        return None
+    ents = [v for row in cells for v in row]
+    return '%s (mkArr %s %d%%nat %d%%nat) [%s]' % (_X_PRELUDE, xenc.cq_Zs(ents), h, w, '; '.join(terms))
+
+
+def _x_obs(t):
+    """tokens of one observation 's h w n e g1 .. g2 .. rw .. it .. mx . mn . eq . . . . d ..' -> the encoding of obs"""
+    def elem(x):
+        return [9] if x == 'P' else [0, int(x)]
+    assert t[0] == 's' and t[5] == 'g1', t[:8]
+    h, w = int(t[1]), int(t[2])
+    out = [h, w, int(t[3]), int(t[4])]
+    k = 6
+    n = (h + 1) * (w + 1)
+    for x in t[k:k + n]:
+        out += elem(x)
+    k += n
+    assert t[k] == 'g2'
+    k += 1
+    for x in t[k:k + n]:
+        out += elem(x)
+    k += n
+    for head, stop in (('rw', 'it'), ('it', 'mx')):
+        assert t[k] == head
+        k += 1
+        j = t.index(stop, k)
+        body = t[k:j]
+        k = j
+        if body == ['P']:
+            out += [9]
+        else:
+            rows = []
+            for x in body:
+                if x == '/':
+                    rows.append([])
+                else:
+                    rows[-1].append(int(x))
+            out += [0, len(rows)]
+            for r in rows:
+                out += [len(r)] + r
+    for head in ('mx', 'mn'):
+        assert t[k] == head
+        x = t[k + 1]
+        out += [9] if x == 'P' else [0, 0] if x == 'none' else [0, 1, int(x)]
+        k += 2
+    assert t[k] == 'eq'
+    for x in t[k + 1:k + 5]:
+        out += [9] if x == 'P' else [0, int(x)]
+    k += 5
+    assert t[k] == 'd'
+    if t[k + 1] == 'P':
+        out += [9]
+        assert len(t) == k + 2
+    else:
+        n = int(t[k + 1])
+        assert len(t) == k + 2 + n
+        out += [0, n] + [int(x) for x in t[k + 2:]]
+    return out
+
+
+def encode_result(case, model_line):
+    parts = model_line.split(' ;; ')
+    t0 = parts[0].split()
+    assert t0[0] == 'start'
+    out = _x_obs(t0[1:])
+    for p in parts[1:]:
+        t = p.split()
+        if t[0] == 'ok':
+            out += [0]; t = t[1:]
+        elif t[0] == 'err':
+            out += [1, xenc.err_code(t[1])]; t = t[2:]
+        else:
+            assert t[0] == 'panic'
+            out += [2]; t = t[1:]
+        out += _x_obs(t)
+    return out
